@@ -107,8 +107,19 @@ func cmdCheck(args []string) int {
 		for _, h := range hs {
 			ov["zz_vx_"+filepath.Base(h.Path)] = h.Src
 		}
+		extra := map[string][]byte{}
+		for _, h := range hs {
+			for _, o := range h.Overlays {
+				b, err := os.ReadFile(o[1])
+				if err != nil {
+					broken = append(broken, "overlay: "+err.Error())
+					continue
+				}
+				extra[o[0]] = b
+			}
+		}
 		tl := time.Now()
-		prog, pkg, err := loadProgram(*repo, pkgPath, ov)
+		prog, pkg, err := loadProgram(*repo, pkgPath, ov, extra)
 		if err != nil {
 			fmt.Fprintf(os.Stderr, "LOAD FAILED for %s: %v\n", pkgPath, err)
 			broken = append(broken, "load failed: "+pkgPath+": "+err.Error())
